@@ -26,15 +26,16 @@ import (
 const modPath = "github.com/aldas/go-modbus-client"
 
 type Ctx struct {
-	repo    string
-	modRoot string // module path prefix considered "in module"
-	fset    *token.FileSet
-	pkgs    []*packages.Package
-	prog    *ssa.Program
-	spkgs   map[string]*ssa.Package
-	byPath  map[string]*packages.Package
-	cg      *callgraph.Graph
-	files   map[*token.File]*ast.File
+	assertInv *[]assertInvariant // cached field invariants (cfg.go)
+	repo      string
+	modRoot   string // module path prefix considered "in module"
+	fset      *token.FileSet
+	pkgs      []*packages.Package
+	prog      *ssa.Program
+	spkgs     map[string]*ssa.Package
+	byPath    map[string]*packages.Package
+	cg        *callgraph.Graph
+	files     map[*token.File]*ast.File
 
 	globalStores map[*ssa.Global][2]int
 }
